@@ -1,4 +1,5 @@
 (* C05 runner.  Input, one case per line:
+     pclass <hex>   outcome class (+ frame count) of container.NewParser via GetFeatures
      rchunk <hex>   ReadChunkHeader + ReadChunk on the bytes
      demux <hex bytes of the file | "-" for the empty input>      (model: DemuxModel.parse true = the current code)
    Output: "I <panic | err | ok F=... (canonical demuxer result, see riffio.ml)>" *)
@@ -20,5 +21,11 @@ let () = iter_lines (fun line ->
       | Res.Ok (c, n) -> Printf.sprintf "ok %s %s %s %s" (zs c.DemuxModel.c_id) (zs c.DemuxModel.c_size) (fmt_bytes c.DemuxModel.c_data) (zs n)
       | Res.Err _ -> "err" | Res.Panic -> "panic" in
     Printf.printf "I H=%s C=%s\n" h c
+  | ["pclass"; hex] ->
+    (* outcome class of container.NewParser (through webp.GetFeatures): ParserModel.parse_ex true *)
+    let bs = if hex = "-" then [] else zlist_of_hex hex in
+    Printf.printf "I %s\n" (match ParserModel.parse_ex true bs with
+      | Res.Ok (p, _) -> Printf.sprintf "ok %d" (Stdlib.List.length p.ParserModel.pFrames)
+      | Res.Err _ -> "err" | Res.Panic -> "panic")
   | [] -> ()
   | _ -> print_endline "ERR bad-line")
